@@ -54,6 +54,7 @@ pub fn witness_stale_snapshot(variant: usize) -> Case {
             (1, "end".into()),
             (second, "end".into()),
         ],
+        target: 0,
     }
 }
 
@@ -74,6 +75,7 @@ pub fn witness_delete_after_compaction() -> Case {
         rng: 0,
         sticky: 0,
         script: vec![(1, "cp.locked".into()), (2, "end".into()), (1, "end".into())],
+        target: 0,
     }
 }
 
@@ -96,6 +98,7 @@ pub fn witness_three_deleters() -> Case {
         rng: 0,
         sticky: 0,
         script: vec![(3, "txn.lock.begin".into()), (1, "end".into()), (2, "end".into()), (3, "end".into())],
+        target: 0,
     }
 }
 
@@ -144,6 +147,7 @@ fn gen_keyed_case(r: &mut Rng, k: usize) -> Case {
         rng: r.next() | 1,
         sticky: *r.pick(&[0, 50, 80]),
         script: vec![],
+        target: 0,
     }
 }
 
@@ -180,6 +184,7 @@ fn gen_deleters_case(r: &mut Rng, k: usize) -> Case {
         rng: r.next() | 1,
         sticky: *r.pick(&[0, 30, 60]),
         script: vec![],
+        target: 0,
     }
 }
 
@@ -234,6 +239,7 @@ fn gen_case(r: &mut Rng, k: usize) -> Case {
         rng: r.next() | 1,
         sticky: *r.pick(&[0, 50, 80]),
         script: vec![],
+        target: 0,
     }
 }
 
